@@ -26,6 +26,16 @@ def coq_op(o):
         return simple[n]
     if n == "peer_close_stop":
         return "SCloseStop"
+    if n == "api_tx":
+        return "(SApiTx %d %s)" % (o[1], "true" if o[2] else "false")
+    if n == "api_fill":
+        return "(SApiFill %d)" % o[1]
+    if n == "api_result":
+        return "SApiResult"
+    if n == "peer_blockinv":
+        return "SBlockInv"
+    if n == "restart":
+        return "SRestart"
     if n == "peer_headers":
         return "(SHeaders %d)" % o[1]
     if n == "peer_blocks":
@@ -56,6 +66,7 @@ class Gen:
         self.sent = 0      # headers sent on this connection beyond the tip
         self.tip = 0       # blocks served
         self.ready = False
+        self.rel = []      # relevant txs delivered so far
 
     def add(self, *o):
         self.ops.append(list(o))
@@ -102,6 +113,21 @@ class Gen:
     def tx(self, rel):
         self.ntx += 1
         self.add("peer_tx", self.ntx, 1 if rel else 0)
+        if rel:
+            self.rel.append(self.ntx)
+
+    def api_tx(self, rel):
+        self.ntx += 1
+        self.add("api_tx", self.ntx, 1 if rel else 0)
+        if rel:
+            self.rel.append(self.ntx)
+
+    def restart(self):
+        self.add("restart")
+        self.add("peer_accept")
+        self.add("peer_version")
+        self.sent = 0
+        self.ready = False
 
     def traffic(self):
         for _ in range(self.r.range(1, 4)):
@@ -222,6 +248,80 @@ def scenario(rng, kind):
             g.traffic()
         g.add("peer_close_stop", r.range(0, 1))
         g.ops += [list(x) for x in TAIL]
+    elif kind == "apifill":
+        # a concurrent caller of the public API: a relevant tx sits in a held handler / fetcher call (nothing is
+        # taken off the tx channel), the application fills the 100 slots through Node.HandleTx, call 101 waits for
+        # room; Stop is requested while it waits; then the held call returns
+        g.add("start")
+        g.handshake()
+        g.insync()
+        if r.chance(1, 2):
+            g.traffic()
+        g.add("hold", r.choice([1, 100]))
+        g.tx(True)
+        g.add("api_fill", 101)
+        g.add("stop_async")
+        g.add("release", 0)
+        g.add("stop_wait")
+        g.add("api_result")
+        g.ops += [list(x) for x in TAIL]
+    elif kind == "apicalls":
+        # API calls that all return (with and without the node being in sync), then Stop
+        g.add("start")
+        g.handshake()
+        if r.chance(1, 2):
+            g.insync()
+        else:
+            g.headers(r.range(1, 3))
+        g.add("api_fill", r.range(3, 60))
+        g.add("api_result")
+        if r.chance(1, 2):
+            g.api_tx(True)
+        g.stop_tail()
+    elif kind == "persist_inv":
+        # a relevant tx delivered while in sync, in sync cleared by a block announced by inventory, Stop while out
+        # of sync; what a fresh process loads from the store; the re-announced tx is not delivered again
+        g.add("start")
+        g.handshake()
+        if r.chance(1, 2):
+            g.sync_some(3)
+        g.insync()
+        g.tx(True)
+        if r.chance(1, 2):
+            g.traffic()
+        g.add("peer_blockinv", r.range(1, 50))
+        g.stop_tail()
+        g.restart()
+        if r.chance(1, 2):
+            g.sync_some(2)
+        g.insync()
+        g.add("peer_tx", r.choice(g.rel), 1)
+        g.tx(True)
+        g.stop_tail()
+    elif kind == "persist_api":
+        # a relevant tx fed through Node.HandleTx during the initial sync (never in sync), Stop, restart
+        g.add("start")
+        g.handshake()
+        stage = r.range(0, 2)
+        if stage >= 1:
+            g.headers(r.range(1, 3))
+        if stage >= 2:
+            g.blocks(1)
+        g.api_tx(True)
+        if r.chance(1, 2):
+            g.api_tx(False)
+        if r.chance(1, 3):
+            g.api_tx(True)
+        g.stop_tail()
+        g.restart()
+        g.sent = 0
+        if r.chance(1, 2):
+            g.sync_some(2)
+        g.insync()
+        g.add("peer_tx", r.choice(g.rel), 1)
+        if r.chance(1, 2):
+            g.tx(True)
+        g.stop_tail()
     elif kind == "reconnecting":
         g.add("start")
         g.handshake()
@@ -278,9 +378,11 @@ def scenario(rng, kind):
 KINDS_QUICK = ["connecting", "connecting", "handshake", "handshake", "handshake", "headers", "headers", "midblocks",
                "midblocks", "heldblock", "heldblock", "insync", "insync", "insync", "heldtx", "heldtx", "abort",
                "afterloss", "afterloss", "afterloss", "reconnecting", "reconnected", "reconnected", "silence",
-               "stoprestarting", "stoprestarting", "stoprestarting"]
+               "stoprestarting", "stoprestarting", "stoprestarting", "apifill", "apifill", "apicalls",
+               "persist_inv", "persist_inv", "persist_api", "persist_api"]
 WEIGHTS = [("connecting", 2), ("handshake", 3), ("headers", 3), ("midblocks", 4), ("heldblock", 3), ("insync", 5),
-           ("heldtx", 3), ("abort", 2), ("afterloss", 5), ("reconnecting", 2), ("reconnected", 5), ("silence", 1), ("stoprestarting", 4)]
+           ("heldtx", 3), ("abort", 2), ("afterloss", 5), ("reconnecting", 2), ("reconnected", 5), ("silence", 1), ("stoprestarting", 4), ("apifill", 3),
+           ("apicalls", 2), ("persist_inv", 3), ("persist_api", 3)]
 
 
 UOPS = {"ustart": "UStart", "ufill": "UFill", "ureset": "UReset", "ustop": "UStop", "ucounts": "UCounts",
@@ -357,6 +459,37 @@ def shutdown_suite(tier, rng, replay):
                    "monitors": {"c19": "c19_monitor"}}])
 
 
+def persist_scenarios(tier, rng, workdir):
+    """The persistence scenarios alone (Stop while NOT in sync with a delivered relevant tx; what a fresh process
+    loads; re-announcement after the restart), for the `extra` hook of another property's check (C11).
+    Returns {"failures", "red", "evaluations", "coverage"}; failure records carry suite = "shutdown_persist"."""
+    n = 4 if tier == "quick" else 24
+    cases = []
+    for i in range(n):
+        r = rng.fork(19700 + i)
+        cases.append(scenario(r, "persist_inv" if i % 2 == 0 else "persist_api"))
+    for c in cases:
+        c["coq_ops"] = [coq_op(o) for o in c["ops"]]
+    su = Suite("shutdown_persist", "shutdown", ["From V.model Require Import Shutdown."],
+               [{"key": "shutdown_persist", "optype": "sop", "cases": cases, "model": "cmp_run srun",
+                 "monitors": {"c19": "c19_monitor"}}])
+    r = checklib.eval_suite(su, os.path.join(workdir, "persist"))
+    red = []
+    if r["coq_errors"]:
+        red.append({"what": "model-evaluation", "suite": su.name, "detail": r["coq_errors"][0]})
+    if r["model_fail"]:
+        red.append({"what": "correspondence", "suite": su.name, "count": len(r["model_fail"]),
+                    "first": checklib.slim(r["model_fail"][0])})
+    hist = {}
+    for c in cases:
+        for o in c["ops"]:
+            hist[o[0]] = hist.get(o[0], 0) + 1
+    return {"failures": r["monitor_fail"], "red": red, "evaluations": r["evaluations"],
+            "coverage": {"persist_scenarios": {"cases": r["evaluations"], "steps": r["steps"], "op_histogram": hist,
+                                               "model_mismatches": len(r["model_fail"]),
+                                               "monitor_failures": len(r["monitor_fail"])}}}
+
+
 def keyfn(rec):
     if rec.get("suite") == "untrusted":
         ops = rec.get("ops", [])
@@ -376,6 +509,18 @@ def keyfn(rec):
     aborted = any(o[0] == "release" and len(o) > 1 and o[1] for o in before)
     full = any(o[0] == "peer_burst" for o in before)
     shape = "consumer-abort-full-channel" if (aborted and full) else ("consumer-abort" if aborted else "plain")
+    if any(o[0] == "api_fill" for o in before):
+        shape = "api-caller-" + shape
+    if any(o[0] == "restart" for o in before):
+        shape = "after-restart-" + shape
+    insync = None
+    for o in before:
+        if o[0] == "peer_sync":
+            insync = True
+        elif o[0] in ("peer_blockinv", "restart", "peer_close", "peer_reset"):
+            insync = False
+    if opn == "stored" and not insync:
+        shape = "not-in-sync-" + shape
     return "shutdown:%s:%s:%s:%s" % (rec.get("checker"), code, opn, shape)
 
 
@@ -398,7 +543,7 @@ SPEC = {
         "one untrusted node stands for all; application calls other than Stop (SendTx, BroadcastTx, HandleTx) are outside the model; the Node.Run scenarios run with UntrustedCount = 0; the untrusted side is tied separately: a real UntrustedNode (real Run / monitorIncoming / sendOutgoing / Stop) over loopback TCP against a peer that never reads and keeps pinging until the 100-slot outgoing queue is full and the reader waits inside Add (component untrusted); its Run is the same phased protocol in small, so its scenarios are run on the same transition system (MI, RT, SO and the outgoing channel)",
         "bounded time is checked as: Stop returns within 4 s (the phase loops poll every 100 ms; typical 0.4 - 0.7 s); net.Dial to a blackholed address is outside (connect is a step that returns)",
     ],
-    "rule": "scenarios: stop while connecting (peer not listening), during the handshake (before accept / before version / after version), during header sync, in the middle of the block download (also with the HandleHeaders callback of a block held across the stop request), in sync with tx / addr / ping traffic (also with HandleTx or the output fetcher held), right after close / reset of the trusted connection at 0-750 ms, Stop placed exactly inside the shutdown that precedes the reconnect (flags polled: needsRestart, stopping, connection cleared), during the reconnect loop, after reconnection at each handshake stage, peer silence with aged time-outs, consumer abort with and without a full channel; untrusted node with its outgoing queue full / after a reset by the peer, then Stop; each Node.Run scenario ends with quiet (no callback after Stop returned), stored (fresh repositories loaded from the store vs final in-memory data vs announcements), announced (heights contiguous, none twice); distinct = distinct (cfg, ops)",
+    "rule": "scenarios: stop while connecting (peer not listening), during the handshake (before accept / before version / after version), during header sync, in the middle of the block download (also with the HandleHeaders callback of a block held across the stop request), in sync with tx / addr / ping traffic (also with HandleTx or the output fetcher held), right after close / reset of the trusted connection at 0-750 ms, Stop placed exactly inside the shutdown that precedes the reconnect (flags polled: needsRestart, stopping, connection cleared), during the reconnect loop, after reconnection at each handshake stage, peer silence with aged time-outs, consumer abort with and without a full channel; a concurrent caller of the public API (Node.HandleTx) filling the tx channel while a handler is held, the 101st call waiting for room across the stop request; Stop while NOT in sync with a delivered relevant tx (in sync cleared by a block inventory; tx fed through HandleTx during the initial sync) followed by a restart on the same storage and re-announcement; untrusted node with its outgoing queue full / after a reset by the peer, then Stop; each Node.Run scenario ends with quiet (no callback after Stop returned), stored (fresh repositories loaded from the store vs final in-memory data vs announcements), announced (heights contiguous, none twice); distinct = distinct (cfg, ops)",
 }
 
 if __name__ == "__main__":
